@@ -205,7 +205,6 @@ Definition run_argv (c : command) (today : Z) (argv : list str) (fs : fsys) : ou
   match parse_cmdline c argv with
   | CLRejected e => ORejected e
   | CLHelp => OHelp
-  | CLUnknown => ONone
   | CLRun sets pos => run_command c today sets pos fs
   end.
 
